@@ -44,10 +44,10 @@ Definition encode_buf (cap : cap_t) (p : list byte) : option (list byte) :=
       match bextend cap rb2 [27;27;27;27;26; N.of_nat npad] with
       | None => None
       | Some rb3 =>
-          let c := crc16 (rev rb3) in
+          let c := crc16 (frev rb3) in
           match bextend cap rb3 [N.land c 255; N.shiftr c 8] with
           | None => None
-          | Some rb4 => Some (rev rb4)
+          | Some rb4 => Some (frev rb4)
           end
       end
       end
@@ -123,11 +123,11 @@ Definition enc_fuel : nat := 4.
 (* collect until the first None (or panic); [lim] bounds the number of calls *)
 Fixpoint enc_collect_from (lim : nat) (e : enc) (acc : list byte) : enc * list byte * eout :=
   match lim with
-  | O => (e, rev acc, EPanic)
+  | O => (e, frev acc, EPanic)
   | S l =>
       match enc_next enc_fuel e with
       | (e', EByte b) => enc_collect_from l e' (b :: acc)
-      | (e', o) => (e', rev acc, o)
+      | (e', o) => (e', frev acc, o)
       end
   end.
 
